@@ -35,6 +35,9 @@ CONSTANT DEV_AnyLeftEmpty
 CONSTANT DEV_PlaceholderUnderUndeclaredKey
 \* Substitutor.visit_list keeps `...` between two members of a value given to an undeclared list (C12)
 CONSTANT DEV_PlaceholderBetweenElements
+\* a `...` key carrying a value other than `...`: from_native lets DictSchema's DeclarationError
+\* escape, Substitutor.visit_dict stores the converted value under the `...` key (C12, C14)
+CONSTANT DEV_EllipsisKeyCarriesValue
 \* Props.__eq__ compares prop values with != which reaches schema-vs-value (C15)
 CONSTANT DEV_PropsEqSchemaVsValue
 
